@@ -42,15 +42,17 @@ theorem julian_eq_meeus (y : Int) (h1 : 326 ≤ y) (h2 : y ≤ 9999) : julianOK 
 theorem orthodox_eq (y : Int) (h1 : 1583 ≤ y) (h2 : y ≤ 4099) : orthodoxOK y = true :=
   allRange_lift 1583 2517 orthodoxOK tableO y h1 (by omega)
 
-/-- **C19 (bad method).** Any method outside 1..3 raises ValueError — all years, all methods. -/
-theorem bad_method (y m : Int) (h : ¬ (1 ≤ m ∧ m ≤ 3)) : easter y m = .error .ValueError := by
+/-- **C19 (bad method).** Any integer method other than 1, 2, 3 raises ValueError — all years, all
+    integer methods.  (Non-integer method values — 2.5, None, '3' — are outside the integer model; since the
+    fix of the membership test they also raise ValueError, which the oracle checks on the implementation.) -/
+theorem bad_method (y m : Int) (h : ¬ (m = 1 ∨ m = 2 ∨ m = 3)) : easter y m = .error .ValueError := by
   unfold easter
   rw [if_pos h]
 
 /-- and methods 1..3 never raise — all years -/
-theorem good_method_ok (y m : Int) (h : 1 ≤ m ∧ m ≤ 3) : ∃ r, easter y m = .ok r := by
+theorem good_method_ok (y m : Int) (h : m = 1 ∨ m = 2 ∨ m = 3) : ∃ r, easter y m = .ok r := by
   unfold easter
-  rw [if_neg (by simpa using h)]
+  rw [if_neg (fun hn => hn h)]
   exact ⟨_, rfl⟩
 
 -- non-vacuity / sanity: concrete values
